@@ -9,6 +9,7 @@ receives is the chop's total, whatever the schedule (`T_C02_count_schedule_free`
 import CBV.Lemmas.C02Term
 import CBV.Props.C01
 import CBV.Lemmas.C02Sim
+import CBV.Lemmas.C01Hist
 
 namespace CBV.Prop0
 
@@ -273,6 +274,32 @@ theorem T_C02_run (inp : Inp) :
 
 end CBV.Prop
 
+/-! ### histories on one mesh object (M-HIST, `Model/C01Hist.lean`) -/
+namespace CBV.Prop
+
+/-- `Mesh.grade()` on *any* memory — a completed grading, the half-done state of a call that raised, copied chops —
+    is the run of a fresh mesh on the chops the user has placed: nothing else survives the reset -/
+theorem T_C02_grade_is_run (m : Mem) (sched : Inp) : m.grade sched = run (m.inp sched) :=
+  grade_is_run m sched
+
+/-- every `write` of a session (writes and `Block.chop` calls on the assembled mesh, in any order) gives exactly what
+    a fresh mesh with the chops placed so far gives: outcome class and the written count of every block direction -/
+theorem T_C02_session_history_free (sched : Inp) (calls : List Call) (m : Mem) (hw : m.WF sched) :
+    session sched m calls = specSession sched m.userChops calls :=
+  session_is_spec sched calls m hw
+
+/-- in particular two meshes that hold the same user chops behave alike from then on, whatever else they remember -/
+theorem T_C02_leftovers_irrelevant (sched : Inp) (calls : List Call) (m m' : Mem) (hw : m.WF sched) (hw' : m'.WF sched)
+    (h : m.userChops = m'.userChops) : session sched m calls = session sched m' calls := by
+  rw [session_is_spec sched calls m hw, session_is_spec sched calls m' hw', h]
+
+/-- and a freshly assembled mesh starts from the chops given to its operations -/
+theorem T_C02_fresh_session (inp : Inp) (calls : List Call) (h : ∀ x, inp.chops x ≠ [] → x < 3 * inp.nBlocks) :
+    session inp (freshMem inp) calls = specSession inp inp.chops calls := by
+  rw [session_is_spec inp calls _ (freshMem_WF inp h), freshMem_userChops]
+
+end CBV.Prop
+
 namespace CBV.Prop.Examples
 open CBV.Prop
 
@@ -285,5 +312,25 @@ example : Fed (twoBoxes 5 0) 4 :=
 def twoBoxesUnder : Inp := { twoBoxes 5 0 with chops := fun x => if x = 3 then [] else (twoBoxes 5 0).chops x }
 example : (match run twoBoxesUnder with | .ok _ => none | .error e => some e) = some Err.undefined := by
   decide +kernel
+
+
+/-- a session on the two boxes: the first write succeeds; then the user chops block 1 along y with 7 cells against the
+    5 of block 0 — every later write is refused (the late chop is not dropped, the earlier result is not reused) -/
+example : (session (twoBoxes 5 0) (freshMem (twoBoxes 5 0)) [.write, .chop 4 ⟨9, 1, 7, false⟩, .write, .write]).map
+      (fun o => match o with | .ok l => some l | .error _ => none)
+    = [some [4, 5, 3, 2, 5, 3], none, none] := by decide +kernel
+
+/-- the fresh memory of the two boxes is well-formed (hypothesis of `T_C02_session_history_free`) -/
+example : (freshMem (twoBoxes 5 0)).WF (twoBoxes 5 0) := by
+  apply freshMem_WF
+  intro x hne
+  by_cases hx : x < 6
+  · exact hx
+  · exfalso; apply hne
+    have h0 : x ≠ 0 := by omega
+    have h1 : x ≠ 1 := by omega
+    have h2 : x ≠ 2 := by omega
+    have h3 : x ≠ 3 := by omega
+    simp [twoBoxes, h0, h1, h2, h3]
 
 end CBV.Prop.Examples
